@@ -20,11 +20,68 @@ func init() {
 			mk("", 12), mk("addchain", 8), mk("mutualremove", 8), mk("requirechain", 10),
 			mk("", 25), mk("addchain", 15),
 		}
+		// exhaustive small scope: every schema of 2 user states (each: Require /
+		// Add / Remove towards the other state, Auto, Multi; 24 variants per state)
+		// x every ordered pair of Add/Remove calls over the non-empty subsets
+		variants := [][5]bool{}
+		for req := 0; req < 2; req++ {
+			for add := 0; add < 2; add++ {
+				for rem := 0; rem < 2; rem++ {
+					if req == 1 && rem == 1 {
+						continue // Parse error
+					}
+					for am := 0; am < 4; am++ {
+						variants = append(variants, [5]bool{req == 1, add == 1, rem == 1, am&1 == 1, am&2 == 2})
+					}
+				}
+			}
+		}
+		ops := []HCall{}
+		for _, k := range []string{"add", "remove"} {
+			for _, st := range [][]int{{0}, {1}, {0, 1}} {
+				ops = append(ops, HCall{Kind: k, States: st})
+			}
+		}
+		total := len(variants) * len(variants) * len(ops) * len(ops)
+		stride := 1
+		if !c.Thorough() {
+			stride = total/300 + 1
+		}
+		exhaustive := func(out *Out, emit func(kind string, in *HistInput)) {
+			for idx := 0; idx < total; idx += stride {
+				x := idx
+				o2 := x % len(ops)
+				x /= len(ops)
+				o1 := x % len(ops)
+				x /= len(ops)
+				v1 := variants[x%len(variants)]
+				v0 := variants[x/len(variants)]
+				mk := func(name string, other int, v [5]bool) HState {
+					s := HState{Name: name, Auto: v[3], Multi: v[4]}
+					if v[0] {
+						s.Require = []int{other}
+					}
+					if v[1] {
+						s.Add = []int{other}
+					}
+					if v[2] {
+						s.Remove = []int{other}
+					}
+					return s
+				}
+				in := &HistInput{States: []HState{mk("Sa", 1, v0), mk("Sb", 0, v1),
+					{Name: "Exception", Multi: true}}, Calls: []HCall{ops[o1], ops[o2]}}
+				emit("exhaustive-2-states", in)
+			}
+		}
+		_ = exhaustive
 		return runHistCases(c, "C02", "EvalC02", gens, 500, 20000,
 			"handler-free machines: random relation graphs (cycles allowed) plus structured streams "+
 				"(Add chains depth 2-5, mutually Removing groups, Require chains), histories of 3-25 "+
 				"Add/Remove/Set/Toggle calls; every observed accepted transition (S, mutation, S') is compared "+
 				"with the model and fed to post_ok; distinct by (input, observation); non-trivial = at least "+
-				"one transition", nil)
+				"one transition; plus the exhaustive small scope (2 user states x 24 variants each x all ordered pairs of "+
+				"Add/Remove calls over non-empty subsets: 20 736 histories in the thorough tier, every 70th in the quick tier)", nil,
+			histOpts{caseType: "hcase", extraEmit: exhaustive})
 	})
 }
